@@ -514,7 +514,7 @@ def snap_overlay():
 
 # ---------------------------------------------------------------- (de)serialisation for replays
 def set_to_json(cs, runs):
-    return {"name": cs.name, "regime": cs.regime, "files": cs.files, "assign": cs.assign,
+    return {"name": cs.name, "regime": cs.regime, "files": cs.files, "assign": cs.assign, "lossy": getattr(cs, "lossy", None),
             "convs": [c.to_json() for c in cs.convs],
             "packets": [{k: (v.hex() if isinstance(v, bytes) else v) for k, v in p.items()} for p in cs.packets],
             "runs": [[l, se, [[f, fl] for f, fl in st]] for l, se, st in runs]}
@@ -523,6 +523,8 @@ def set_to_json(cs, runs):
 def set_from_json(o):
     cs = CaptureSet(o["name"])
     cs.regime, cs.files, cs.assign = o.get("regime", ""), o["files"], o["assign"]
+    if o.get("lossy") is not None:
+        cs.lossy = o["lossy"]
     byid = {}
     for c in o["convs"]:
         cv = Conv(c["cid"], c["proto"], tuple(c["client"]), tuple(c["server"]), [(d, bytes.fromhex(b)) for d, b in c["msgs"]], c["close"], c["closer"])
@@ -541,6 +543,8 @@ def restrict(cs, cids):
     """capture set with only the conversations cids (files, assignment of the kept packets unchanged)"""
     out = CaptureSet(cs.name)
     out.regime, out.files = cs.regime, cs.files
+    if hasattr(cs, "lossy"):
+        out.lossy = cs.lossy
     keep = set(cids)
     out.convs = [c for c in cs.convs if c.cid in keep]
     out.packets = [p for p in cs.packets if p["cid"] in keep]
@@ -554,6 +558,8 @@ def nonempty_runs(cs, runs):
     remap = {f: i for i, f in enumerate(used)}
     cs2 = CaptureSet(cs.name)
     cs2.regime, cs2.convs, cs2.packets = cs.regime, cs.convs, cs.packets
+    if hasattr(cs, "lossy"):
+        cs2.lossy = cs.lossy
     cs2.files = [cs.files[f] for f in used]
     cs2.assign = [remap[f] for f in cs.assign]
     runs2 = []
@@ -714,12 +720,18 @@ def setup():
     model_exe()
 
 
+def model_flags():
+    """switches of the faithful model that follow the tree under test (tiny translator: one grep)"""
+    src = open(os.path.join(REPO, "internal/index/builder/builder.go")).read()
+    return ["flushall"] if re.search(r"range tcpAssembler \{\s*a\.FlushAll\(\)", src) else []
+
+
 def run_model(exe, cf, tag, prop="c05"):
     d = os.path.join(BUILD, "run", prop)
     mout = os.path.join(d, "model_%s.out" % tag)
     if os.path.exists(mout):
         os.remove(mout)
-    rc, out, dt = run([exe, cf, mout], timeout=900)
+    rc, out, dt = run([exe, cf, mout] + model_flags(), timeout=900)
     note = "" if rc == 0 else "model driver rc=%d: %s" % (rc, out[-800:])
     return parse_out(mout), note, dt
 
